@@ -117,7 +117,10 @@ def gen_c03(seed, tier):
 
 
 def o_c03(rec, world, hist):
-    return R.o_fromscratch(rec, world, hist) + O.o_term(rec, world, hist)[:1]
+    # (what an interrupted run leaves running belongs to C17, where it is checked for every interrupt position;
+    #  a hang is reported here too, since nothing could be said about the history after it)
+    t = [v for v in O.o_term(rec, world, hist)[:1] if not (v["tags"].get("interrupt") and v["oracle"] != "hang")]
+    return R.o_fromscratch(rec, world, hist) + t
 
 
 # ---- C05 -------------------------------------------------------------------
